@@ -751,7 +751,7 @@ async fn wait_full(pool: &VerifPool, node: &Node, total: usize, limit_ms: u64) -
     }
 }
 
-async fn run_pool(w: &[&str], race: bool, progress: &Mutex<String>, ctx: &mut Ctx) -> Option<String> {
+async fn run_pool(w: &[&str], race: bool, progress: &Mutex<String>, peek: &Mutex<Option<Arc<Mutex<State>>>>, ctx: &mut Ctx) -> Option<String> {
     let mode = w.get(1)?;
     let sharded = mode.starts_with('S');
     let n: u16 = mode.get(1..)?.parse().ok()?;
@@ -764,6 +764,7 @@ async fn run_pool(w: &[&str], race: bool, progress: &Mutex<String>, ctx: &mut Ct
         return None;
     }
     let node = Node::start(if sharded { Some(n) } else { None }).await;
+    *peek.lock().unwrap() = Some(Arc::clone(&node.st));
     let size = if sharded {
         scylla::client::PoolSize::PerShard(NonZeroUsize::new(1).unwrap())
     } else {
@@ -824,7 +825,7 @@ async fn run_pool(w: &[&str], race: bool, progress: &Mutex<String>, ctx: &mut Ct
                 let end = node.tick();
                 calls.push(UseCall { idx: i, start, end, ok: r.is_ok() });
                 for (k, q) in qs.into_iter().enumerate() {
-                    *progress.lock().unwrap() = format!("step {} `{}`: use_keyspace returned {:?}, awaiting query {}", step_no, step, r, k);
+                    *progress.lock().unwrap() = format!("step {} `{}`: use_keyspace returned {:?}, awaiting query {} of the burst (last tag {})", step_no, step, r, k, tag);
                     let _ = q.await;
                 }
             }
@@ -998,8 +999,9 @@ pub fn run(case: &str, ctx: &mut Ctx) -> String {
                     tokio::runtime::Builder::new_current_thread().enable_all().build().unwrap()
                 };
                 let progress = Mutex::new(String::new());
+                let peek: Mutex<Option<Arc<Mutex<State>>>> = Mutex::new(None);
                 let mut local = Ctx::default();
-                let res = rt.block_on(async { tokio::time::timeout(Duration::from_secs(45), run_pool(&w, race, &progress, &mut local)).await });
+                let res = rt.block_on(async { tokio::time::timeout(Duration::from_secs(45), run_pool(&w, race, &progress, &peek, &mut local)).await });
                 rt.shutdown_timeout(Duration::from_secs(2));
                 ctx.oracle_failures.append(&mut local.oracle_failures);
                 match res {
@@ -1008,6 +1010,15 @@ pub fn run(case: &str, ctx: &mut Ctx) -> String {
                         use std::io::Write;
                         if let Ok(mut f) = std::fs::OpenOptions::new().create(true).append(true).open("/verif/work/C20-hangs.log") {
                             let _ = writeln!(f, "attempt {} hung at {}: {}", attempt, progress.lock().unwrap(), case);
+                            if let Some(st) = peek.lock().unwrap().as_ref()
+                                && let Ok(st) = st.lock()
+                            {
+                                let conns: Vec<String> =
+                                    st.conns.iter().enumerate().map(|(i, c)| format!("#{} shard={:?} live={} answered={} ks={:?}", i, c.shard, c.live, c.answered, c.ks)).collect();
+                                let answered: Vec<u64> = st.queries.iter().map(|q| q.tag).collect();
+                                let tail: Vec<&String> = st.texts.iter().rev().take(12).collect();
+                                let _ = writeln!(f, "    node: conns [{}]; queries answered {:?}; last texts (newest first) {:?}", conns.join("; "), answered, tail);
+                            }
                         }
                     }
                 }
